@@ -3,7 +3,8 @@ import PyYetiVerif.Model.UsetUp
 import PyYetiVerif.Model.Locate
 /-! Line protocol for C18.  A request is `op args | section | section …`; sections hold
 space-separated integers (matrix rows are separated by `;`).  Replies: `ok …` with sections
-separated by ` | `, or `value-error` / `index-error` / `key-error`, or `bad-op`.
+separated by ` | `, or `value-error` / `index-error` / `key-error` / `type-error` /
+`recursion-error` (the recursion fuel `selist.length + 1` of upqsetpv is used up), or `bad-op`.
 
   mask a+o+m                                  -> ok <int>
   setpv <major> <minor> | w…                  -> ok 0 1 …        (set spec: names or #<int>)
@@ -15,6 +16,9 @@ separated by ` | `, or `value-error` / `index-error` / `key-error`, or `bad-op`.
   upa <seup> | seup sedn … | se : id dof word … ; … | se : dnid … ; … | se : order scale … ; … | se : upid … ; …
                                                                -> ok pv…          (upasetpv)
   upq <sedn> | (the same five sections)                        -> ok 0 1 …        (upqsetpv)
+  sep | (the same five sections)                               -> ok 1 / ok 0     (separateB: hypothesis of upqsetpv_spec)
+  findse <se> | seup sedn …                                    -> ok row          (_findse)
+  nodeids | id dof word …                                      -> ok id …         (_get_node_ids)
   dups <tol> | v…              -> ok 0 1 …
   flippv <n> | pv…  /  i2b <n> | pv…
   i2s <strict> | pv…           -> ok slice a b c   (None for an absent field) / ok pv …
@@ -148,6 +152,19 @@ def answer (line : String) : String :=
       match se.toNat?, nasOf sl us dn mp up with
       | some se, some nas => reply (upasetpv nas se) showL
       | _, _ => "bad-op"
+  | ["findse", se], [sl] =>
+      match se.toNat?, (nats sl).bind pairs with
+      | some se, some l => reply (findse l se) toString
+      | _, _ => "bad-op"
+  | ["nodeids"], [tb] =>
+      match (nats tb).bind triples with
+      | some tbl => "ok " ++ showL (nodeIds tbl)
+      | none => "bad-op"
+  | ["sep"], [sl, us, dn, mp, up] =>
+      match nasOf sl us dn mp up with
+      | some nas => "ok " ++ (if separateB (Generated.UsetMask.mask .a) (Generated.UsetMask.mask .q)
+          (Generated.UsetMask.mask .p) nas then "1" else "0")
+      | none => "bad-op"
   | ["upq", se], [sl, us, dn, mp, up] =>
       match se.toNat?, nasOf sl us dn mp up with
       | some se, some nas =>
